@@ -27,7 +27,8 @@ MachineGets(root, ph, w) == LET r == StartPath(root, ph, w) IN <<G(Get_(r.p))>> 
 WalkViol(S, w) ==
   IF w.res = "panic" THEN {V("C10", "a cursor call panics")}
   ELSE IF w.res # "ok" THEN {V("C10", "a cursor call fails on a healthy store")}
-  ELSE IF w.gets # Expected(S, w) THEN {V("C10", "cursor does not visit the keys a sorted list would give, or misreports the ends")} ELSE {}
+  \* judged up to and including the first "no entry": what further moves do once the cursor is off an end is not part of C10
+  ELSE IF UpToOff(w.gets) # UpToOff(Expected(S, w)) \/ (Len(w.gets) # Len(Expected(S, w))) THEN {V("C10", "cursor does not visit the keys a sorted list would give, or misreports the ends")} ELSE {}
 SeekViol(S, s) ==
   (IF s.res = "panic" THEN {V("C10", "SeekIter panics")}
    ELSE IF s.res # "ok" THEN {V("C10", "SeekIter fails on a healthy store")}
